@@ -126,7 +126,15 @@ func c01upMenu() []c01upItem {
 	}
 }
 
-var c01upAsC04 = os.Getenv("VERIF_PROP") == "C04"
+var c01upAsC04 = os.Getenv("VERIF_PROP") == "C04" || os.Getenv("VERIF_PROP") == "C05"
+
+// c01upProp: C04, or C05 (a caller must get the reply the server sent to its exchange - not one completed from another reply's bytes)
+var c01upProp = func() string {
+	if os.Getenv("VERIF_PROP") == "C05" {
+		return "C05"
+	}
+	return "C04"
+}()
 
 func c01upScenario(c *choice.Ctx, rep *report.R, k c14Kind, proglen int) {
 	// On the datagram transport the exploration also runs without the ownership hook: with it every recycled buffer is filled with a
@@ -149,7 +157,7 @@ func c01upScenario(c *choice.Ctx, rep *report.R, k c14Kind, proglen int) {
 		if c01upAsC04 {
 			// as a part of C04: a returned message that the server never sent as such (pieces of two replies glued together)
 			if sig == "undecodable-reply-accepted" {
-				rep.Violate("C04:upstream-reply:"+k.name+":reply-made-of-two-datagrams", fmt.Sprintf("%s\n  %s: %s", msg, k.name, strings.Join(trace, " ")), map[string]any{"Choices": c.Choices(), "Kind": k.name})
+				rep.Violate(c01upProp+":upstream-reply:"+k.name+":reply-made-of-two-datagrams", fmt.Sprintf("%s\n  %s: %s", msg, k.name, strings.Join(trace, " ")), map[string]any{"Choices": c.Choices(), "Kind": k.name})
 			}
 			return
 		}
@@ -334,7 +342,7 @@ func c01upScenario(c *choice.Ctx, rep *report.R, k c14Kind, proglen int) {
 }
 
 func TestVerifC01Upstream(t *testing.T) {
-	rep := report.New(map[bool]string{false: "C01 malformed upstream replies", true: "C04 replies made of what the server sent"}[c01upAsC04])
+	rep := report.New(map[bool]string{false: "C01 malformed upstream replies", true: c01upProp + " replies made of what the server sent"}[c01upAsC04])
 	defer rep.Write()
 	proglen := report.ParamInt("PROGLEN", 2)
 	var names []string
